@@ -11,16 +11,23 @@
                              raising period listed twice (invoked again on resume, once) and nothing else changed — the
                              resumed simulator is otherwise (pilots, rates, energies, batteries, histories, queue,
                              `_resolve`, `_last_schedule_update`) the uninterrupted one (`ObsEq`, C09);
-  * `json_resume_invoked`  — the same through `to_json() → Simulator.from_json() → update_scheduler(…) → run()`: by C09
-                             (`crash_json_resume_eq`) the decoded simulator IS the aborted one — in particular its
+  * `resume_views_true`    — WHAT THE SCHEDULER SEES across the interruption: the aborted run handed out the views of the
+                             uninterrupted run up to and including period `k`, the second `run()` hands out the views of the
+                             uninterrupted run from period `k` on (the view of period `k` again, unchanged) — so every view
+                             after the resume is the true one (`view_true`, AcnProofs/C05.lean, describes each);
+  * `json_resume_invoked`  — the same through `to_json() → Simulator.from_json() → update_scheduler(…) → run()`: by C09's
+                             codec theorems (`crash_state_roundtrip`) the decoded simulator IS the aborted one — in particular its
                              iteration, queue, `_resolve` and `_last_schedule_update`, so the pending recompute request of
                              an event period survives the save / load.
 
   (Separate from AcnProofs/C05.lean because C09's lemma family — ResumeRun.lean — and C05's — EventCoreSim.lean — declare
-  the same projection names and cannot be imported together.)
+  the same projection names and cannot be imported together.  C09's lemma FILES are imported, not AcnProofs/C09.lean: its
+  regenerated-data obligation on Gen/Serial.lean belongs to C09's check alone; `Lemmas/ResumeJson.lean` re-derives
+  `C09.resume_eq` and the JSON half of `C09.crash_json_resume_eq` from them.)
 -/
-import AcnProofs.C09
+import AcnProofs.Lemmas.ResumeJson
 import AcnProofs.Lemmas.ResumeProj
+import AcnProofs.Lemmas.ResumeViews
 
 set_option linter.unusedSectionVars false
 
@@ -46,7 +53,7 @@ theorem resume_sim_is_core (cfg : Sim.Cfg K) (sched : View K → Except EventCor
   intro r1 r r2
   refine ⟨run_proj cfg sched n (Sim.init cfg) hok, run_failAt_proj cfg sched k n (Sim.init cfg) hok, ?_⟩
   intro hf
-  rcases C09.resume_eq cfg sched hS k n with h | ⟨_, _, h3⟩
+  rcases sim_resume_eq cfg sched hS k n with h | ⟨_, _, h3⟩
   · exfalso
     have : r1.2 = none := by
       show (run cfg (failAt k sched) n (Sim.init cfg)).2 = none
@@ -83,7 +90,7 @@ theorem resume_invoked_sim (cfg : Sim.Cfg K) (sched : View K → Except EventCor
   · left
     simp only [Prod.mk.injEq] at he
     refine ⟨?_, ?_⟩
-    · rcases C09.resume_eq cfg sched hS k n with h | ⟨hf, _, _⟩
+    · rcases sim_resume_eq cfg sched hS k n with h | ⟨hf, _, _⟩
       · exact h
       · exfalso
         have : r1.2 = none := he.2
@@ -99,7 +106,7 @@ theorem resume_invoked_sim (cfg : Sim.Cfg K) (sched : View K → Except EventCor
     simp only [Prod.mk.injEq, and_true] at h7
     refine ⟨h1, h2, pre, post, h4, h5, h6, q1, ?_, ?_⟩
     · rw [h7]; rfl
-    · rcases C09.resume_eq cfg sched hS k n with h | ⟨_, _, h3⟩
+    · rcases sim_resume_eq cfg sched hS k n with h | ⟨_, _, h3⟩
       · exfalso
         have : r1.2 = none := by
           show (run cfg (failAt k sched) n (Sim.init cfg)).2 = none
@@ -118,7 +125,7 @@ theorem json_resume_invoked {sh : RegistrySim.Show K} {rd : RegistrySim.Read K} 
     let r1 := run cfg (failAt k sched) n (Sim.init cfg)
     let r := run cfg sched n (Sim.init cfg)
     ∃ ctx s', dump (RegistrySim.encode sh cfg r1.1) RegistrySim.root = .ok ctx ∧ load ctx RegistrySim.root = .ok ctx ∧
-      RegistrySim.decode rd cfg (RegistrySim.ambOf r1.1) ctx.get = some s' ∧
+      RegistrySim.decode rd cfg (RegistrySim.ambOf r1.1) ctx.get = some s' ∧ s' = r1.1 ∧
       s'.core.iter = r1.1.core.iter ∧ s'.core.pending = r1.1.core.pending ∧ s'.core.resolve = r1.1.core.resolve ∧
       s'.core.lastUpd = r1.1.core.lastUpd ∧
       ((r1 = r ∧ k ∉ r.1.core.invoked) ∨
@@ -127,10 +134,29 @@ theorem json_resume_invoked {sh : RegistrySim.Show K} {rd : RegistrySim.Read K} 
           (run cfg sched (n - k) s').2 = none ∧ (run cfg sched (n - k) s').1.core.invoked = pre ++ [k] ++ [k] ++ post ∧
           ObsEq (run cfg sched (n - k) s').1 r.1)) := by
   intro r1 r
-  obtain ⟨ctx, s', h1, h2, h3, h4, _⟩ := C09.crash_json_resume_eq hl cfg sched hv k n
+  obtain ⟨ctx, h1, h2, h3⟩ := crash_state_roundtrip hl cfg (failAt k sched) hv n
   have hS : SessionsOK cfg.core := ⟨hv.ids_nodup, fun x hx => ⟨hv.arr_nonneg x hx, hv.arr_lt_dep x hx⟩⟩
-  subst h4
-  exact ⟨ctx, _, h1, h2, h3, rfl, rfl, rfl, rfl, resume_invoked_sim cfg sched hS k n hok⟩
+  exact ⟨ctx, _, h1, h2, h3, rfl, rfl, rfl, rfl, rfl, resume_invoked_sim cfg sched hS k n hok⟩
+
+/-- **resume_views_true** — the views across abort + resume, for every configuration with well-formed sessions, every
+    scheduler (failing or not), raising period `k` and fuel `n`: either the failure never fires (same run, same views), or
+    the first `run()` aborts in period `k` having handed out `A ++ [v]`, and the second `run()` hands out `v :: B`, where
+    `A ++ v :: B` are the views of the uninterrupted run and `v` is its view of period `k` (`A` earlier).  Together with
+    `json_resume_invoked` (`s' = r1.1`) the same holds for the simulator loaded from JSON. -/
+theorem resume_views_true (cfg : Sim.Cfg K) (sched : View K → Except EventCore.Err (Schedule K)) (hS : SessionsOK cfg.core)
+    (k n : Nat) :
+    let r1 := run cfg (failAt k sched) n (Sim.init cfg)
+    (r1 = run cfg sched n (Sim.init cfg) ∧
+      runViews cfg (failAt k sched) n (Sim.init cfg) = runViews cfg sched n (Sim.init cfg)) ∨
+    (r1.2 = some EventCore.Err.schedulerFailed ∧ r1.1.core.iter = k ∧
+      ∃ A v B, runViews cfg sched n (Sim.init cfg) = A ++ v :: B ∧
+        runViews cfg (failAt k sched) n (Sim.init cfg) = A ++ [v] ∧
+        runViews cfg sched (n - k) r1.1 = v :: B ∧ v.iter = k ∧ ∀ a ∈ A, a.iter < k) := by
+  intro r1
+  have h := resume_views cfg sched k n (s := Sim.init cfg) (init_noOverdue hS) (Nat.zero_le k)
+  have hsub : n - (k - (Sim.init cfg).core.iter) = n - k := rfl
+  rw [hsub] at h
+  exact h
 
 end
 
@@ -169,6 +195,15 @@ example : (run exCfg (failAt 4 exSched) 8 (Sim.init exCfg)).1.core.resolve = fal
     (run exCfg exSched 4 (run exCfg (failAt 4 exSched) 8 (Sim.init exCfg)).1).1.core.invoked = [0, 1, 2, 4, 4, 5] ∧
     (run exCfg (failAt 3 exSched) 8 (Sim.init exCfg)).2 = none ∧
     (run exCfg (failAt 3 exSched) 8 (Sim.init exCfg)).1.core.invoked = [0, 1, 2, 4, 5] := by
+  decide +kernel
+
+/-- the views: the aborted run (raising in the timer period 4) handed out the views of periods 0, 1, 2, 4, the second
+    `run()` hands out those of 4 and 5; the view of period 4 carries the energy delivered so far both times -/
+example : (runViews exCfg (failAt 4 exSched) 8 (Sim.init exCfg)).map (·.iter) = [0, 1, 2, 4] ∧
+    (runViews exCfg exSched 4 (run exCfg (failAt 4 exSched) 8 (Sim.init exCfg)).1).map (·.iter) = [4, 5] ∧
+    (runViews exCfg exSched 8 (Sim.init exCfg)).map (·.iter) = [0, 1, 2, 4, 5] ∧
+    ((runViews exCfg exSched 4 (run exCfg (failAt 4 exSched) 8 (Sim.init exCfg)).1).map fun v => v.active.map (·.delivered)) =
+      ((runViews exCfg exSched 8 (Sim.init exCfg)).drop 3).map fun v => v.active.map (·.delivered) := by
   decide +kernel
 
 end Examples
